@@ -243,6 +243,33 @@ def inline_awaits(F, body, coros, depth=0):
     return nb
 
 
+def devirtualise(body):
+    """`f(args)` where f is a function pointer that, after splicing, is a known function item in this very body (a helper took
+    `build: fn(..) -> T`): the call is rewritten into a direct call of that function"""
+    sites = [i for i, blk in enumerate(body['blocks']) if blk['t'].get('k') == 'call' and (blk['t'].get('f') or {}).get('k') in ('cp', 'mv')]
+    if not sites:
+        return body
+    from .core import B as _B
+    W = _B(body)
+    nb = None
+    for i in sites:
+        t = body['blocks'][i]['t']
+        try:
+            o = W.origin(t['f'], at=(i, None))
+        except Exception:
+            continue
+        while o and o[0] == 'cast' and len(o) > 3:
+            o = o[3]            # the ReifyFnPointer cast of a function item
+        if o and o[0] == 'fnref' and o[1]:
+            if nb is None:
+                nb = dict(body)
+                nb['blocks'] = [{'s': blk['s'], 't': blk['t']} for blk in body['blocks']]
+            nt = dict(t)
+            nt['f'] = {'k': 'c', 'fn': o[1], 'd': o[1], 'devirt': True}
+            nb['blocks'][i] = {'s': nb['blocks'][i]['s'], 't': nt}
+    return nb if nb is not None else body
+
+
 INLINED_CLOSURE_CALLS = {}
 _CLOSURE_CALLS = ('core::ops::function::FnOnce::call_once', 'core::ops::function::FnMut::call_mut', 'core::ops::function::Fn::call')
 
@@ -978,6 +1005,8 @@ def normalise(F):
         if b.get('crate') not in WS:
             continue
         nb_ = inline_closure_calls(F, out[p], bodies=out, direct=(p in changed), changed=changed)
+        if p in changed:
+            nb_ = devirtualise(nb_)
         if nb_ is not b:
             nb_ = fold_constant_switches(nb_)
             nb_ = thread_jumps(nb_, F.adts)
